@@ -179,12 +179,12 @@ func (sm *StrategyManager) roundRobinNextBackend(log logr.Logger, routeHost stri
 		return "", log, false
 	}
 
-	// Get next backend in round-robin order
-	value, _ := sm.roundRobinIndexes.LoadOrStore(routeHost, 0)
-	index := value.(int)
+	// Get next backend in round-robin order. The per-route counter (*atomic.Uint64) is
+	// advanced atomically so that concurrent connections never observe the same index.
+	value, _ := sm.roundRobinIndexes.LoadOrStore(routeHost, new(atomic.Uint64))
+	index := value.(*atomic.Uint64).Add(1) - 1
 
-	backend := backends[index%len(backends)]
-	sm.roundRobinIndexes.Store(routeHost, index+1)
+	backend := backends[index%uint64(len(backends))]
 
 	return backend, log, true
 }
